@@ -9,6 +9,7 @@ import RjModel.Model.FileRecv
 import RjModel.Model.Exe
 import RjModel.Model.ParseSettings
 import RjModel.Generated.Defaults
+import RjModel.Model.ParseDoer
 open Rj
 
 def chunkCfg? : Option ChunkCfg := do
@@ -130,6 +131,14 @@ def handle (line : String) : String :=
   | ["rpd", s] =>
     match unx s with
     | some str => renderPathDesc (parsePathDesc str)
+    | none => "bad-op"
+  | "doer" :: rest =>
+    match chunkCfg? with
+    | some k => runDoerRequest k Generated.filterWrapPre Generated.filterWrapPost rest
+    | none => "bad-op"
+  | ["linktext", b] =>
+    match unxBytes b with
+    | some bytes => s!"read={(readLinkB bytes).render} written=x{hexOfBytes (writeLinkB '/' (readLinkB bytes))}"
     | none => "bad-op"
   | ["chunks", len] =>
     match chunkCfg?, len.toNat? with
